@@ -1364,3 +1364,132 @@ def term_refs(fn_, term):
                 if not [a for a in fn_.events("assign") if (a.get("lhs") or {}).get("v") == v]:
                     refs += list(d.get("refs") or [])
     return refs
+
+
+# ---------- consumption covered by an availability test (analysis B with symbolic sums) ----------
+
+def _sum_terms(text):
+    """'remainingData + 2' -> ['remainingData', '2'] (top-level '+' only); None when the expression has another shape"""
+    t = re.sub(r"\s+", "", text or "")
+    while t.startswith("(") and t.endswith(")") and _balanced(t[1:-1]):
+        t = t[1:-1]
+    if not t:
+        return None
+    out, depth, cur = [], 0, ""
+    for ch in t:
+        if ch in "([<":
+            depth += 1
+        elif ch in ")]>":
+            depth -= 1
+        if ch == "+" and depth == 0:
+            out.append(cur)
+            cur = ""
+        else:
+            cur += ch
+    out.append(cur)
+    if any(not x or re.search(r"[-*/%?]", x) for x in out):
+        return None
+    return [re.sub(r"^static_cast<[^>]*>\((.*)\)$", r"\1", x) for x in out]
+
+
+def _balanced(t):
+    d = 0
+    for ch in t:
+        d += ch == "("
+        d -= ch == ")"
+        if d < 0:
+            return False
+    return d == 0
+
+
+def unchecked_advances(f, is_advance, is_remaining, is_eol):
+    """[(call, covered, why)] for the calls of f satisfying is_advance whose result nobody looks at.  Such a call silently does nothing
+    when fewer bytes are buffered than it is told to skip, so it is *covered* only when a test on the way establishes that enough is
+    there: with A = remaining() taken before, an edge A >= t1 + .. + tn (the not-taken edge of `A < ...`, or `remaining() < n`), or the
+    true edge of eol() (two bytes), dominates it and the amounts consumed since that edge are among t1..tn; or its amount is A itself
+    / min(A, ..) with nothing consumed in between."""
+    d = cfg.dominators(f)
+    adv = [e for e in f.events("call") if is_advance(e)]
+    avail = {x["var"]: x for x in f.events("decl") if x.get("var") and is_remaining_init(x, is_remaining)}
+    out = []
+
+    def used(c):
+        blk = f.blocks[c.block]
+        ct = re.sub(r"\s+", "", c.get("t") or "")
+        if blk.term and ct and ct in re.sub(r"\s+", "", (blk.term.get("cond") or "")):
+            return True
+        for x in blk.elems[c.idx + 1:]:
+            if x["k"] in ("return", "decl", "assign") and ct and ct in re.sub(r"\s+", "", (x.get("t") or "") + ((x.get("init") or {}).get("t") or "") + ((x.get("rhs") or {}).get("t") or "")):
+                return True
+        return False
+
+    def amount(c):
+        return re.sub(r"\s+", "", (c.get("args") or [{}])[0].get("t") or "")
+
+    facts_ = []    # (block, k, [terms])
+    for b in f.blocks.values():
+        t = b.term
+        if not t or len(b.succs) != 2:
+            continue
+        for k in (0, 1):
+            if b.succs[k] is None:
+                continue
+            r = rel_on_edge(t, k)
+            if r is not None:
+                lhs, rel, rhs = r
+                for a_, rel_, o_ in ((lhs, rel, rhs), (rhs, _SWAP[rel], lhs)):
+                    is_av = a_.get("v") in avail or any(is_remaining_ref(x) for x in [a_])
+                    if is_av and rel_ in (">=", ">", "=="):
+                        terms = _sum_terms(o_.get("t"))
+                        if terms is not None:
+                            facts_.append((b.id, k, terms, a_.get("v")))
+            if not t.get("cmp") and any(is_eol_ref(r_) for r_ in (t.get("leafrefs") or t.get("refs") or [])) and (k == 0) != bool(t.get("neg")):
+                facts_.append((b.id, k, ["2"], None))
+    for c in adv:
+        if used(c):
+            continue
+        amt = amount(c)
+        ok, why = False, "no availability test covers it"
+        # the amount is what is there
+        m = re.match(r"^(?:std::min(?:<[^>]*>)?\()?(\w+)", amt)
+        for av, dv in avail.items():
+            if (amt == av or re.match(r"^std::min(<[^>]*>)?\((%s,.*|.*,%s)\)$" % (re.escape(av), re.escape(av)), amt)) and cfg.ev_dominates(d, dv, c):
+                between = [x for x in adv if x is not c and cfg.ev_dominates(d, dv, x) and any(y is c for y in cfg.events_after(f, x))]
+                if not between:
+                    ok, why = True, "skips what remaining() reported (%s)" % av
+        # a local that is itself min(A, ..)
+        if not ok:
+            for x in f.events("decl"):
+                it = re.sub(r"\s+", "", (x.get("init") or {}).get("t") or "")
+                if x.get("var") == amt and any(re.match(r"^std::min(<[^>]*>)?\((%s,.*|.*,%s)\)$" % (re.escape(av), re.escape(av)), it) for av in avail) and cfg.ev_dominates(d, x, c):
+                    ok, why = True, "skips min(remaining, ..) (%s)" % amt
+        if not ok:
+            for bid, k, terms, _av in facts_:
+                if not cfg.edge_dominates(f, bid, k, c):
+                    continue
+                consumed = [amount(x) for x in adv if (x is c) or (cfg.edge_dominates(f, bid, k, x) and any(y is c for y in cfg.events_after(f, x)))]
+                pool = list(terms)
+                fits = True
+                for a_ in consumed:
+                    if a_ in pool:
+                        pool.remove(a_)
+                    else:
+                        fits = False
+                if fits:
+                    ok, why = True, "the test at line %s establishes %s buffered; consumed since: %s" % ((f.blocks[bid].term or {}).get("l"), " + ".join(terms), " + ".join(consumed))
+                    break
+                why = "the test at line %s establishes only %s buffered, but %s are skipped after it" % ((f.blocks[bid].term or {}).get("l"), " + ".join(terms), " + ".join(consumed))
+        out.append((c, ok, why))
+    return out
+
+
+def is_remaining_init(d, is_remaining):
+    return is_remaining(d)
+
+
+def is_remaining_ref(x):
+    return "remaining()" in re.sub(r"\s+", "", x.get("t") or "") and not x.get("v")
+
+
+def is_eol_ref(r_):
+    return r_ in ("c:Pistache::StreamCursor::eol",)
